@@ -25,8 +25,9 @@ type FListener struct {
 
 // FLConn is one dialled connection: Client is the harness/client end, Server the end wrapped by the server transport.
 type FLConn struct {
-	Client *FConn
-	Server *FConn
+	Client    *FConn
+	Server    *FConn
+	Transport lime.Transport // the server-side transport handed to Accept
 }
 
 func NewFListener(cfg *lime.TCPConfig, opts PipeOpts) *FListener {
@@ -75,9 +76,9 @@ func (l *FListener) Dial() (*FLConn, error) {
 		return nil, ErrRefused
 	}
 	c, s := Pipe(l.opts)
-	conn := &FLConn{Client: c, Server: s}
+	conn := &FLConn{Client: c, Server: s, Transport: lime.VerifNewTCPTransport(s, l.cfg, true)}
 	select {
-	case l.queue <- lime.VerifNewTCPTransport(s, l.cfg, true):
+	case l.queue <- conn.Transport:
 	default:
 		return nil, ErrRefused
 	}
